@@ -10,6 +10,8 @@ import (
 type fnInfo struct {
 	idx  map[ssa.Value]int
 	n    int
+	loopCtl map[*ssa.BasicBlock]bool
+	defBlock []*ssa.BasicBlock // defining block per env index (nil: param/freevar)
 	ipd  map[*ssa.BasicBlock]*ssa.BasicBlock // immediate post-dominator
 	done bool
 }
@@ -100,7 +102,7 @@ type State struct {
 	cur     int
 	pc      []*Term
 	facts   map[int]*Term // term id -> constant (decisions / concretizations)
-	model   Model         // a model known to satisfy pc (may be nil)
+	models  []Model       // models known to satisfy pc
 	nondets []NondetRec
 	sched   []int // scheduling decisions
 	covers  map[string]bool
@@ -146,6 +148,7 @@ func (s *State) clone() *State {
 		n.threads[i] = t.clone()
 	}
 	n.pc = append([]*Term(nil), s.pc...)
+	n.models = append([]Model(nil), s.models...)
 	n.facts = make(map[int]*Term, len(s.facts))
 	for k, v := range s.facts {
 		n.facts[k] = v
@@ -238,19 +241,28 @@ func (s *State) addPC(c *Term) {
 	if c.IsTrue() {
 		return
 	}
+	if f, ok := s.facts[c.ID]; ok && f.IsTrue() {
+		return
+	}
 	if c.Op == "and" {
 		for _, a := range c.Args {
 			s.addPC(a)
 		}
+		s.facts[c.ID] = TTrue
+		s.facts[Not(c).ID] = TFalse
 		return
 	}
 	s.pc = append(s.pc, c)
 	s.facts[c.ID] = TTrue
 	s.facts[Not(c).ID] = TFalse
-	if s.model != nil {
-		if r := s.model.Eval(c, map[*Term]*Term{}); r == nil || !r.IsTrue() {
-			s.model = nil
+	if len(s.models) > 0 {
+		var keep []Model
+		for _, m := range s.models {
+			if r := m.Eval(c, map[*Term]*Term{}); r != nil && r.IsTrue() {
+				keep = append(keep, m)
+			}
 		}
+		s.models = keep
 	}
 }
 
@@ -480,63 +492,63 @@ func valIdentical(a, b Value) bool {
 // tryMerge merges b into a under condition c (a if c else b). Returns nil if shapes differ.
 func tryMerge(c *Term, a, b *State, prefixLen int) *State {
 	if len(a.heap) != len(b.heap) || len(a.threads) != len(b.threads) || a.cur != b.cur {
-		return nil
+		return mergeFail(1)
 	}
 	if len(a.nondets) != len(b.nondets) || len(a.sched) != len(b.sched) {
-		return nil
+		return mergeFail(2)
 	}
 	for i := range a.nondets {
 		if a.nondets[i].Var != b.nondets[i].Var || a.nondets[i].N != b.nondets[i].N {
-			return nil
+			return mergeFail(3)
 		}
 	}
 	for i := range a.sched {
 		if a.sched[i] != b.sched[i] {
-			return nil
+			return mergeFail(4)
 		}
 	}
 	if len(a.pools) != len(b.pools) || len(a.lockOwner) != len(b.lockOwner) || len(a.rlockCnt) != len(b.rlockCnt) || len(a.syncMaps) != len(b.syncMaps) {
-		return nil
+		return mergeFail(5)
 	}
 	for k, v := range a.lockOwner {
 		if w, ok := b.lockOwner[k]; !ok || w != v {
-			return nil
+			return mergeFail(6)
 		}
 	}
 	for k, v := range a.rlockCnt {
 		if w, ok := b.rlockCnt[k]; !ok || w != v {
-			return nil
+			return mergeFail(7)
 		}
 	}
 	for k, v := range a.syncMaps {
 		if w, ok := b.syncMaps[k]; !ok || w != v {
-			return nil
+			return mergeFail(8)
 		}
 	}
 	for k, v := range a.pools {
 		w, ok := b.pools[k]
 		if !ok || len(w) != len(v) {
-			return nil
+			return mergeFail(9)
 		}
 		for i := range v {
 			if !valIdentical(v[i], w[i]) {
-				return nil
+				return mergeFail(10)
 			}
 		}
 	}
 	if len(a.ghost) != len(b.ghost) {
-		return nil
+		return mergeFail(11)
 	}
 	// threads / frames
 	for ti := range a.threads {
 		ta, tb := a.threads[ti], b.threads[ti]
 		if ta.status != tb.status || len(ta.frames) != len(tb.frames) || ta.waitKind != tb.waitKind || ta.waitPtr != tb.waitPtr || ta.waitObj != tb.waitObj {
-			return nil
+			return mergeFail(12)
 		}
 		for fi := range ta.frames {
 			fa, fb := ta.frames[fi], tb.frames[fi]
 			if fa.fn != fb.fn || fa.block != fb.block || fa.pc != fb.pc || len(fa.defers) != len(fb.defers) || fa.id != fb.id {
-				return nil
+				return mergeFail(13)
 			}
 		}
 	}
@@ -544,11 +556,11 @@ func tryMerge(c *Term, a, b *State, prefixLen int) *State {
 	for k, va := range a.ghost {
 		vb, ok := b.ghost[k]
 		if !ok {
-			return nil
+			return mergeFail(14)
 		}
 		mv, ok := mergeValue(c, va, vb)
 		if !ok {
-			return nil
+			return mergeFail(15)
 		}
 		m.ghost[k] = mv
 	}
@@ -571,26 +583,31 @@ func tryMerge(c *Term, a, b *State, prefixLen int) *State {
 					}
 					continue
 				}
+				if db := fa.info.defBlock[i]; db != nil && fa.block != nil && !db.Dominates(fa.block) {
+					// defined inside an arm: dead after the join (SSA dominance)
+					mf.env[i] = nil
+					continue
+				}
 				v, ok := mergeValue(c, fa.env[i], fb.env[i])
 				if !ok {
-					return nil
+					return mergeFail(16)
 				}
 				mf.env[i] = v
 			}
 			for di := range fa.defers {
 				da, db := fa.defers[di], fb.defers[di]
 				if len(da.Args) != len(db.Args) {
-					return nil
+					return mergeFail(17)
 				}
 				fv, ok := mergeValue(c, da.Fn, db.Fn)
 				if !ok {
-					return nil
+					return mergeFail(18)
 				}
 				nargs := make([]Value, len(da.Args))
 				for i := range da.Args {
 					v, ok := mergeValue(c, da.Args[i], db.Args[i])
 					if !ok {
-						return nil
+						return mergeFail(19)
 					}
 					nargs[i] = v
 				}
@@ -611,10 +628,10 @@ func tryMerge(c *Term, a, b *State, prefixLen int) *State {
 			continue
 		}
 		if oa == nil || ob == nil {
-			return nil
+			return mergeFail(20)
 		}
 		if oa.Kind != ob.Kind || len(oa.Cells) != len(ob.Cells) || len(oa.Entries) != len(ob.Entries) || len(oa.Buf) != len(ob.Buf) || oa.Closed != ob.Closed {
-			return nil
+			return mergeFail(21)
 		}
 		var mo *Object
 		for j := range oa.Cells {
@@ -623,7 +640,7 @@ func tryMerge(c *Term, a, b *State, prefixLen int) *State {
 			}
 			v, ok := mergeValue(c, oa.Cells[j], ob.Cells[j])
 			if !ok {
-				return nil
+				return mergeFail(22)
 			}
 			if mo == nil {
 				mo = m.wobj(i)
@@ -634,11 +651,11 @@ func tryMerge(c *Term, a, b *State, prefixLen int) *State {
 			ea, eb := oa.Entries[j], ob.Entries[j]
 			k, ok := mergeValue(c, ea.Key, eb.Key)
 			if !ok {
-				return nil
+				return mergeFail(23)
 			}
 			v, ok := mergeValue(c, ea.Val, eb.Val)
 			if !ok {
-				return nil
+				return mergeFail(24)
 			}
 			if mo == nil {
 				mo = m.wobj(i)
@@ -648,7 +665,7 @@ func tryMerge(c *Term, a, b *State, prefixLen int) *State {
 		for j := range oa.Buf {
 			v, ok := mergeValue(c, oa.Buf[j], ob.Buf[j])
 			if !ok {
-				return nil
+				return mergeFail(25)
 			}
 			if mo == nil {
 				mo = m.wobj(i)
@@ -667,12 +684,11 @@ func tryMerge(c *Term, a, b *State, prefixLen int) *State {
 		}
 	}
 	// ea includes c itself, eb includes not c
-	m.model = nil
+	m.models = nil
 	m.addPC(Or(ea, eb))
-	if a.model != nil {
-		m.model = a.model
-	} else if b.model != nil {
-		m.model = b.model
+	m.models = append(append([]Model(nil), a.models...), b.models...)
+	if len(m.models) > 8 {
+		m.models = m.models[:8]
 	}
 	for k := range b.covers {
 		m.covers[k] = true
@@ -705,4 +721,16 @@ func tryMerge(c *Term, a, b *State, prefixLen int) *State {
 		m.plainCells[k] = v
 	}
 	return m
+}
+
+var mergeFailCounts = map[int]int{}
+
+func mergeFail(n int) *State { mergeFailCounts[n]++; return nil }
+
+func (s *State) addModel(m Model) {
+	if len(s.models) >= 8 {
+		s.models = append(s.models[1:len(s.models):len(s.models)], m)
+		return
+	}
+	s.models = append(s.models[:len(s.models):len(s.models)], m)
 }
